@@ -632,3 +632,50 @@ func VH_C17_words4_Q() {
 	n := 3 + 4*vTier()
 	vhC17Check(vhC17Opts{nmin: n, nmax: n, textLike: true, narrow: true, glues: 2, penClasses: 1, widths: 1}, 0)
 }
+
+// fourlines: a 17-item paragraph that needs four lines, built so that the optimum keeps an active
+// node in a dearer fitness class at the first breakpoint (the node is created only because of the
+// DemeritsFitness slack in the pruning test).  The stretch of the first glue is symbolic; the
+// cost function is the exact polynomial one so that witnesses replay natively.
+func VH_C17_fourlines_Q() {
+	vhC17Zero = vNondetF64()
+	vAssume(vhC17Zero == 0)
+	vhC17Exact = true
+	vStub("math.Pow", vhC17Pow)
+	y1 := vNondetF64()
+	vAssume(17 <= y1 && y1 <= 18.5)
+	P := Penalty(0, 0, false)
+	p := &vhC17Para{width: 100}
+	p.items = []Item{
+		Box(40), Glue(10, y1, 0), Box(40), P, Box(10), P,
+		Box(30), Glue(10, 50, 0), Box(30), P,
+		Box(30), Glue(10, 20, 0), Box(30), P,
+		Box(90), Glue(0, Infinity, 0), Penalty(0, -Infinity, false),
+	}
+	for _, it := range p.items {
+		switch {
+		case it.Type == BoxType:
+			p.cls = append(p.cls, vhC17Box)
+		case it.Type == GlueType:
+			p.cls = append(p.cls, vhC17Glue)
+		case it.Penalty <= -Infinity:
+			p.cls = append(p.cls, vhC17Forced)
+		default:
+			p.cls = append(p.cls, vhC17Finite)
+		}
+	}
+	breaks, ok := Linebreak(p.items, p.width, 0)
+	vAssert("C17.fourlines.no_overflow", ok)
+	pos := make([]int, len(breaks))
+	for i, br := range breaks {
+		pos[i] = br.Position
+	}
+	feas, _, total, _, _ := p.eval(pos, Tolerance)
+	vAssert("C17.fourlines.feasible", feas)
+	best := true
+	for _, bs := range p.breakings() {
+		f, _, t, _, _ := p.eval(bs, Tolerance)
+		best = best && (!f || total <= t+1e-6)
+	}
+	vAssert("C17.fourlines.optimal", best)
+}
